@@ -77,9 +77,9 @@ def _tree_key(repo):
     return h.hexdigest(), G
 
 
-def lean_known():
-    src = fw.strip_comments(open(fw.module_path("NmlVerif.Props.C07Gen")).read())
-    m = re.search(r"def Known : List String :=\s*\[(.*?)\]", open(fw.module_path("NmlVerif.Props.C07Gen")).read(), re.S)
+def lean_list(name):
+    src = open(fw.module_path("NmlVerif.Props.C07Gen")).read()
+    m = re.search(r"def %s : List String :=\s*\[(.*?)\]" % name, src, re.S)
     return sorted(re.findall(r'"([^"]*)"', m.group(1))) if m else None
 
 
@@ -108,9 +108,15 @@ def regenerate(ctx):
     gaps = ["opaque construct: " + g for g in side["gaps"]]
     known_json = sorted(k.split("C07:shared-mutable:", 1)[1] for k in fw.known_findings("C07")
                         if k.startswith("C07:shared-mutable:"))
-    kl = lean_known()
+    kl, benign = lean_list("Known"), lean_list("Benign") or []
+    ctx.extra["glue"]["benign_memo_caches"] = benign
     if kl != known_json:
         gaps.append("Known list in Props/C07Gen.lean %r differs from known_findings.d/C07.json %r" % (kl, known_json))
+    stale = [b for b in benign if b not in _GLUE["violating"]]
+    if stale:
+        ctx.notes.append("Benign entries no longer reported by the scan (can be removed): %r" % stale)
+    _GLUE["unexpected"] = [v for v in _GLUE["violating"] if v not in benign and v not in known_json]
+    ctx.extra["glue"]["unexpected_violating_vars"] = _GLUE["unexpected"]
     return gaps
 
 
@@ -283,6 +289,18 @@ def write_fileset(rng, root, tag, seedling):
     main.pulse_generators.append(n.PulseGenerator(id="pgMain", delay="0ms", duration="%dms" % r.randint(1, 9),
                                                   amplitude="1nA"))
     W.NeuroMLWriter.write(main, os.path.join(d, "main.nml"))
+    # a network whose cell lives in an included file (the XML parser resolves it through the includes)
+    netinc = n.NeuroMLDocument(id="netinc" + tag)
+    netinc.includes.append(n.IncludeType(href="sub/cells.nml"))
+    nw = n.Network(id="netinc" + tag)
+    netinc.networks.append(nw)
+    pp = n.Population(id="pop0", component="incCell", size=r.randint(1, 3), type="populationList")
+    for k in range(pp.size):
+        ins = n.Instance(id=k)
+        ins.location = n.Location(x=float(k), y=float(r.randint(0, 9)), z=0.0)
+        pp.instances.append(ins)
+    nw.populations.append(pp)
+    W.NeuroMLWriter.write(netinc, os.path.join(d, "netinc.nml"))
     # an array morphology file
     try:
         import numpy as np
@@ -363,7 +381,8 @@ ENTRIES = ["NeuroMLLoader.load", "NeuroMLHdf5Loader.load", "NeuroMLHdf5Loader.lo
            "read_neuroml2_file[includes]", "read_neuroml2_file[h5]", "read_neuroml2_file[h5,optimized]",
            "read_neuroml2_string", "read_neuroml2_string[includes]", "ArrayMorphLoader.load",
            "NeuroMLXMLParser+NetworkBuilder", "NeuroMLHdf5Parser+NetworkBuilder", "NeuroMLHdf5Loader.load[bad]",
-           "NeuroMLXMLParser+NetworkBuilder[bad]", "read_neuroml2_file[xml-simple]"]
+           "NeuroMLXMLParser+NetworkBuilder[bad]", "read_neuroml2_file[xml-simple]",
+           "NeuroMLXMLParser+NetworkBuilder[includes]", "read_neuroml2_file[netinc]"]
 
 
 def perform(entry, d, cwd_neutral=True):
@@ -382,6 +401,8 @@ def perform(entry, d, cwd_neutral=True):
         return L.read_neuroml2_file(p("net.nml"))
     if entry == "read_neuroml2_file[xml-simple]":
         return L.read_neuroml2_file(p("simple.nml"), include_includes=True)
+    if entry == "read_neuroml2_file[netinc]":
+        return L.read_neuroml2_file(p("netinc.nml"), include_includes=True)
     if entry == "read_neuroml2_file[includes]":
         return L.read_neuroml2_file(p("main.nml"), include_includes=True)
     if entry == "read_neuroml2_file[h5]":
@@ -400,7 +421,8 @@ def perform(entry, d, cwd_neutral=True):
         from neuroml.hdf5.NetworkBuilder import NetworkBuilder
         from neuroml.hdf5.NeuroMLXMLParser import NeuroMLXMLParser
         b = NetworkBuilder()
-        NeuroMLXMLParser(b).parse(p("bad.nml" if entry.endswith("[bad]") else "net.nml"))
+        NeuroMLXMLParser(b).parse(p("bad.nml" if entry.endswith("[bad]") else
+                                    ("netinc.nml" if entry.endswith("[includes]") else "net.nml")))
         return b.get_nml_doc()
     if entry == "NeuroMLHdf5Parser+NetworkBuilder":
         from neuroml.hdf5.NetworkBuilder import NetworkBuilder
@@ -934,6 +956,11 @@ CORPUS = [
         ["load", "A", "read_neuroml2_string[includes]"], ["load", "A", "read_neuroml2_string[includes]"],
         ["load", "A", "read_neuroml2_file[includes]"], ["rewrite", "A", 99], ["load", "A", "read_neuroml2_file[includes]"],
         ["load", "A", "read_neuroml2_string[includes]"], ["load", "B", "read_neuroml2_file[includes]"]]}},
+    # the XML parser resolves includes with a list of its own: twice, and after another file
+    {"kind": "history", "session": {"seeds": {"A": 31, "B": 32}, "steps": [
+        ["load", "A", "NeuroMLXMLParser+NetworkBuilder[includes]"], ["load", "A", "NeuroMLXMLParser+NetworkBuilder[includes]"],
+        ["load", "B", "NeuroMLXMLParser+NetworkBuilder[includes]"], ["load", "A", "read_neuroml2_file[netinc]"],
+        ["load", "A", "NeuroMLXMLParser+NetworkBuilder[includes]"]]}},
     # hand-built optimized containers used before an optimized load (`OptimizedList.__init__(indices={})`)
     {"kind": "history", "session": {"seeds": {"A": 21, "B": 22}, "steps": [
         ["use"], ["load", "A", "NeuroMLHdf5Loader.load[optimized]"], ["load", "B", "read_neuroml2_file[h5,optimized]"],
